@@ -38,8 +38,8 @@ UnIns(l) == CASE l = "neg" -> "Opposite" [] l = "abs" -> "AbsoluteValue" [] l = 
 
 \* an identifier: looked up in the input value first (pairs and lists have associations); only then the host, once
 IdValue(name, cur, H, log) ==
-  LET found == IF cur.t \in {"pair", "list"} THEN Lookup(cur, MkSym(name)) ELSE None
-      unspecified == cur.t = "list" /\ ~DistinctKeys(cur.v) IN
+  LET found == IF HasKeys(cur) THEN Lookup(cur, MkSym(name)) ELSE None
+      unspecified == ~KeysDistinct(cur) \/ cur.t = "slice" IN
   IF unspecified THEN R(SKIP, log)
   ELSE IF found # None THEN R(found[1], log)
   ELSE LET h == HostResolve(H, name) IN
